@@ -22,6 +22,10 @@ pub use crate::synchronizer::Synchronizer;
 pub use crate::types::{ActiveChain, SyncShared};
 #[cfg(feature = "verif-hooks")]
 pub use crate::types::{InflightBlocks, InflightState, VerifInflightDump};
+#[cfg(feature = "verif-hooks")]
+pub use crate::relayer::{
+    ReconstructionResult, verif_block_transactions_verify, verif_compact_block_verify,
+};
 use ckb_constant::sync::MAX_BLOCKS_IN_TRANSIT_PER_PEER;
 
 // Time recording window size, ibd period scheduler dynamically adjusts frequency
